@@ -259,22 +259,6 @@ def load_performance_midi(
                     # remove hash from dict
                     del sounding_notes[note]
 
-        # fix note ids so that it is sorted lexicographically
-        # by onset, pitch, offset, channel and track
-        notes.sort(
-            key=lambda x: (
-                x["note_on"],
-                x["midi_pitch"],
-                x["note_off"],
-                x["channel"],
-                x["track"],
-            )
-        )
-
-        # add note id to every note
-        for k, note in enumerate(notes):
-            note["id"] = f"n{k}"
-
         if len(notes) > 0 or len(controls) > 0 or len(programs) > 0:
             pp = performance.PerformedPart(
                 notes,
@@ -300,6 +284,25 @@ def load_performance_midi(
         for note in pp.notes:
             note["note_on"] = adjust_time(note["note_on_tick"], tempo_changes, ppq)
             note["note_off"] = adjust_time(note["note_off_tick"], tempo_changes, ppq)
+
+        # fix note ids so that it is sorted lexicographically
+        # by onset, pitch, offset, channel and track (the final times: the
+        # times accumulated while reading a track see only the tempo changes
+        # met so far, and stand still after a tempo of 0)
+        pp.notes.sort(
+            key=lambda x: (
+                x["note_on"],
+                x["midi_pitch"],
+                x["note_off"],
+                x["channel"],
+                x["track"],
+            )
+        )
+
+        # add note id to every note
+        for k, note in enumerate(pp.notes):
+            note["id"] = f"n{k}"
+
         for control in pp.controls:
             control["time"] = adjust_time(control["time_tick"], tempo_changes, ppq)
         for program in pp.programs:
